@@ -2,6 +2,10 @@
 """seed_recheck.py [--tier T] <seed-id>...   — re-run the registered check of each kept seeded change against /repo with the
 change applied (undone straight afterwards) and record the outcome in its meta.json. Serial: nothing else may use /repo meanwhile."""
 import json, os, subprocess, sys
+# RECHECK_VERIF / RECHECK_REPO: a scratch copy of /verif and a scratch worktree of /repo, so that a long sweep does not occupy
+# /verif and /repo themselves (results are still written to /verif/seeded/<id>/meta.json)
+V = os.environ.get("RECHECK_VERIF", "/verif")
+R = os.environ.get("RECHECK_REPO", "/repo")
 args = sys.argv[1:]
 tier = "quick"
 if args and args[0] == "--tier":
@@ -12,18 +16,19 @@ for sid in args:
     d = os.path.join("/verif/seeded", sid)
     meta = json.load(open(os.path.join(d, "meta.json")))
     prop = meta["property"]
-    st = subprocess.run(["git", "-C", "/repo", "status", "--porcelain"], capture_output=True, text=True).stdout.strip()
+    st = subprocess.run(["git", "-C", R, "status", "--porcelain"], capture_output=True, text=True).stdout.strip()
     if st:
         print("refusing: /repo is not clean:", st); sys.exit(2)
-    p = subprocess.run(["git", "-C", "/repo", "apply", os.path.join(d, "patch.diff")], capture_output=True, text=True)
+    p = subprocess.run(["git", "-C", R, "apply", os.path.join(d, "patch.diff")], capture_output=True, text=True)
     if p.returncode != 0:
         print(sid, "patch does not apply:", p.stderr[:300]); continue
     try:
-        r = subprocess.run(["./check", prop], cwd="/verif", env=dict(os.environ, VERIF_TIER=tier), capture_output=True, text=True)
+        r = subprocess.run(["./check", prop], cwd=V, env=dict(os.environ, VERIF_TIER=tier, VERIF_REPO=R), capture_output=True, text=True)
     finally:
-        subprocess.run(["git", "-C", "/repo", "checkout", "--", "."]); subprocess.run(["git", "-C", "/repo", "clean", "-fdq"])
+        subprocess.run(["git", "-C", R, "checkout", "--", "."]); subprocess.run(["git", "-C", R, "clean", "-fdq"])
         # the evidence file written by this run describes a CHANGED tree: put the committed one (unchanged tree) back
-        subprocess.run(["git", "-C", "/verif", "checkout", "--", f"evidence/{prop}.json"])
+        if V == "/verif":
+            subprocess.run(["git", "-C", "/verif", "checkout", "--", f"evidence/{prop}.json"])
     o = r.stdout + r.stderr
     lines = [l for l in o.splitlines() if l.startswith(("VIOLATION", "KNOWN", "ERROR", prop + ":"))][:6]
     det = r.returncode == 1 and any(l.startswith("VIOLATION property=" + prop) for l in lines)
